@@ -14,6 +14,7 @@
 package signer
 
 import (
+	"bytes"
 	"context"
 	"crypto"
 	"crypto/x509"
@@ -220,6 +221,9 @@ func (s *PluginSigner) generateSignatureEnvelope(ctx context.Context, desc ocisp
 	if err = json.Unmarshal(content, &signedPayload); err != nil {
 		return nil, nil, fmt.Errorf("signed envelope payload can't be unmarshalled: %w", err)
 	}
+	if err := checkNoDuplicateKeys(json.NewDecoder(bytes.NewReader(content))); err != nil {
+		return nil, nil, fmt.Errorf("signed envelope payload is ambiguous: %w", err)
+	}
 	if !isPayloadDescriptorValid(desc, signedPayload.TargetArtifact) {
 		return nil, nil, fmt.Errorf("during signing descriptor subject has changed from %+v to %+v", desc, signedPayload.TargetArtifact)
 	}
@@ -278,6 +282,46 @@ func isDescriptorSubset(original, newDesc ocispec.Descriptor) bool {
 func isPayloadDescriptorValid(originalDesc, newDesc ocispec.Descriptor) bool {
 	return content.Equal(originalDesc, newDesc) &&
 		isDescriptorSubset(originalDesc, newDesc)
+}
+
+// checkNoDuplicateKeys returns an error if a JSON object in the document read
+// by dec repeats a member name. JSON decoders disagree on which of two
+// same-named members wins (and decoding into a struct merges them), so the
+// checks on such a payload would not see what a verifier sees.
+func checkNoDuplicateKeys(dec *json.Decoder) error {
+	tok, err := dec.Token()
+	if err != nil {
+		return err
+	}
+	switch tok {
+	case json.Delim('{'):
+		seen := make(map[string]struct{})
+		for dec.More() {
+			keyTok, err := dec.Token()
+			if err != nil {
+				return err
+			}
+			key, _ := keyTok.(string)
+			if _, ok := seen[key]; ok {
+				return fmt.Errorf("member %q appears more than once", key)
+			}
+			seen[key] = struct{}{}
+			if err := checkNoDuplicateKeys(dec); err != nil {
+				return err
+			}
+		}
+		_, err = dec.Token()
+		return err
+	case json.Delim('['):
+		for dec.More() {
+			if err := checkNoDuplicateKeys(dec); err != nil {
+				return err
+			}
+		}
+		_, err = dec.Token()
+		return err
+	}
+	return nil
 }
 
 func areUnknownAttributesAdded(content []byte) []string {
